@@ -27,7 +27,13 @@ SCRIPTS = {
     "two-strategies": [(0, ["P", A]), (1, ["P", B]), (0, ["C", 0, None])],
     "place-sp": [(0, ["P", dict(sel=1, side="LAY", ot="LOC", liab=10.0, price=3.0)]), (0, ["P", dict(sel=2, side="BACK", ot="MOC", liab=4.0)])],
     "place-handicap": [(0, ["P", dict(A, hc=-1.5)]), (0, ["C", 0, 2.0])],
+    # a line market (the script's name decides the market's ladder): a lay that can match, then a back
+    "place-line": [(0, ["P", dict(sel=1, side="LAY", price=3.5, size=4.0)]), (0, ["P", dict(sel=1, side="BACK", price=2.5, size=2.0)])],
 }
+
+
+def _line_markets(script_name):
+    return ("1.100000001",) if script_name.endswith("-line") else ()
 
 
 class Obs:
@@ -205,7 +211,7 @@ def oracle(w, obs, meta, out, counts):
             from mc import refs as R
 
             ros = [
-                R.RefOrder(b.side, {"L": "LIMIT", "LOC": "LOC", "MOC": "MOC"}[b.ot], False, "EXECUTABLE" if b.status == "E" else "EXECUTION_COMPLETE", b.status == "EC", [(b.avp, b.sm)] if b.sm else [], b.sr, b.price, b.liab)
+                R.RefOrder(b.side, {"L": "LIMIT", "LOC": "LOC", "MOC": "MOC"}[b.ot], b.market_id in w.line_markets, "EXECUTABLE" if b.status == "E" else "EXECUTION_COMPLETE", b.status == "EC", [(b.avp, b.sm)] if b.sm else [], b.sr, b.price, b.liab)
                 for b in known_bets
                 if b.bet_id in bets_now
             ]
@@ -237,7 +243,7 @@ def _job(args):
         b = dict(budgets)
         if crash_image:
             b["crash"] = 1
-        w = livex.LiveWorld(script, hooks=o, budgets=b, fault_plan=fault, async_place=async_place, strategies=("S0", "S1"), skip_strategies=skip)
+        w = livex.LiveWorld(script, hooks=o, budgets=b, fault_plan=fault, async_place=async_place, strategies=("S0", "S1"), skip_strategies=skip, line_markets=_line_markets(name))
         w.start()
         return w
 
@@ -305,7 +311,7 @@ def jobs_for(tier):
             for f in ("TIMEOUT", "TIMEOUT_APPLIED", "FAILURE:ERROR_IN_ORDER"):
                 jobs.append((name, b1 if not thorough else b2, {k: {"per": [f]}}, False, None, ()))
     # crash / restart at every point (two image variants), one with a strategy that is not re-added
-    for name in ("place", "place-cancel", "place-cancelpart", "place-replace", "two-strategies", "place-sp", "place-handicap") + (("place-update", "place2-cancel2") if thorough else ()):
+    for name in ("place", "place-cancel", "place-cancelpart", "place-replace", "two-strategies", "place-sp", "place-handicap", "place-line") + (("place-update", "place2-cancel2") if thorough else ()):
         jobs.append((name, b1, None, False, "executable", ()))
         jobs.append((name, b1, None, False, "executable", ("S1",) if name == "two-strategies" else ("S0",)))
     return jobs
@@ -352,7 +358,7 @@ def replay(rep):
     b = dict(m["budgets"])
     if m["image"]:
         b["crash"] = 1
-    w = livex.LiveWorld(SCRIPTS[m["script"]], hooks=o, budgets=b, fault_plan=fault, async_place=m["async_place"], strategies=("S0", "S1"), skip_strategies=tuple(m["skip"])).start()
+    w = livex.LiveWorld(SCRIPTS[m["script"]], hooks=o, budgets=b, fault_plan=fault, async_place=m["async_place"], strategies=("S0", "S1"), skip_strategies=tuple(m["skip"]), line_markets=_line_markets(m["script"])).start()
     out = []
     counts = {k: 0 for k in ("clause:C11.a", "clause:C11.b", "clause:C11.c", "clause:C11.d", "clause:C11.e", "adopted_bets_checked", "completed_orders_checked", "unknown_strategy_bets")}
     try:
